@@ -161,6 +161,9 @@ def o6(h, st):
     h.done()
 
 
+from tverif.engine import repeatable
+repeatable((SM, "get_vector"), (SM, "get_reference_circuit"), (SM, "vector_to_circuit"), (MT, "fermion_to_qubit_mapping"))
+
 PROPERTY = {
     "level": "other",
     "explanation": "Bounded exhaustive, executed from the AST of the real functions with an exact oracle: for every occupation vector / every admissible "
